@@ -37,6 +37,9 @@ pub struct World {
     /// output directory first; 2 = same, and the sources are older than what that build left behind
     #[serde(default)]
     pub pre_build: u8,
+    /// how the output directory is spelled on the command line: "out" | "./out" | "abs" (absolute path of the same directory)
+    #[serde(default)]
+    pub out_spelling: String,
 }
 
 type Obs = BTreeMap<String, String>;
@@ -280,6 +283,14 @@ pub fn gen_program(seed: u64) -> Program {
     if r.chance(1, 2) {
         main = main.replace(" -> int:", "  ->  int:").replace("x + ", "x+");
     }
+    if r.chance(1, 5) {
+        // two files (and two directories) whose names differ only in letter case: a total order over names is needed
+        files.push(("Notes.incn".to_string(), "def   upper_notes( ) -> int:\n    return 1\n".to_string()));
+        files.push(("notes.incn".to_string(), "def   lower_notes( ) -> int:\n    return 2\n".to_string()));
+        files.push(("Extra/side.incn".to_string(), "def   upper_side( ) -> int:\n    return 3\n".to_string()));
+        files.push(("extra/side.incn".to_string(), "def   lower_side( ) -> int:\n    return 4\n".to_string()));
+        targets.push("directory walk order".to_string());
+    }
     files.push(("main.incn".to_string(), main));
     targets.sort();
     targets.dedup();
@@ -326,6 +337,24 @@ pub fn gen_world(r: &mut Rng, k: usize, nnodes: usize) -> World {
     for i in 0..r.below(4) {
         env.push((format!("VERIF_RANDOM_VAR_{i}"), format!("{:x}", r.next())));
     }
+    if r.chance(1, 2) {
+        env.push(("CARGO_HOME".into(), r.pick(&["/root/.cargo", "/opt/cargo", "/nonexistent/cargo"]).to_string()));
+    }
+    if r.chance(1, 3) {
+        env.push(("CARGO_TARGET_DIR".into(), r.pick(&["/tmp/shared-target", "target-alt"]).to_string()));
+    }
+    if r.chance(1, 3) {
+        env.push(("LOGNAME".into(), r.pick(&["root", "builder", "someone"]).to_string()));
+    }
+    if r.chance(1, 2) {
+        // what cargo exports to every build script, `cargo run`, `cargo test` and subcommand it starts
+        env.push(("CARGO_MANIFEST_DIR".into(), r.pick(&["/work/other_pkg", "/home/alice/proj", "/nonexistent"]).to_string()));
+        env.push(("CARGO_PKG_NAME".into(), r.pick(&["other_pkg", "proj"]).to_string()));
+        env.push(("CARGO".into(), "/root/.cargo/bin/cargo".to_string()));
+    }
+    if r.chance(1, 4) {
+        env.push(("OUT_DIR".into(), "/tmp/some-build-script-out".to_string()));
+    }
     let depth = r.below(3);
     let mut loc = format!("w{k}");
     for d in 0..depth {
@@ -336,7 +365,8 @@ pub fn gen_world(r: &mut Rng, k: usize, nnodes: usize) -> World {
     r.shuffle(&mut order);
     // world 0 is always the clean reference
     let pre_build = if k == 0 { 0 } else { *r.pick(&[0u8, 0, 1, 2, 2]) };
-    World { hash_seed: r.next() | 1, env, loc, clock_origin_s: r.range(0, 4_000_000_000) as i64, order, pre_build }
+    let out_spelling = if k == 0 { "out".to_string() } else { r.pick(&["out", "out", "./out", "abs"]).to_string() };
+    World { hash_seed: r.next() | 1, env, loc, clock_origin_s: r.range(0, 4_000_000_000) as i64, order, pre_build, out_spelling }
 }
 
 // ------------------------------------------------------------------------------------------------ observation
@@ -393,6 +423,7 @@ pub fn observe_inproc(p: &Program, w: &World, scratch: &Path, fakebin: &Path) ->
     };
     let root2 = root.clone();
     let pre_build = w.pre_build;
+    let out_spelling = w.out_spelling.clone();
     let tree2 = tree.clone();
     let order2 = w.order.clone();
     let entry_rel = p.entry.clone();
@@ -413,7 +444,17 @@ pub fn observe_inproc(p: &Program, w: &World, scratch: &Path, fakebin: &Path) ->
         }
         o.insert("canary".into(), simcore::interpose::canary_order());
         o.insert("check".into(), cli_result(incan::cli::commands::check_file(&entry)));
-        o.insert("build".into(), cli_result(incan::cli::commands::build_file(&entry, Some(&"out".to_string()))));
+        let out_arg = match out_spelling.as_str() {
+            "./out" => "./out".to_string(),
+            "abs" => root2.join("out").to_string_lossy().to_string(),
+            _ => "out".to_string(),
+        };
+        // (the spelling of the output directory is echoed in build_file's own messages; mask it there)
+        let mut build_msg = cli_result(incan::cli::commands::build_file(&entry, Some(&out_arg)));
+        if out_arg != "out" {
+            build_msg = build_msg.replace(&out_arg, "out");
+        }
+        o.insert("build".into(), build_msg);
         for (rel, bytes) in world::read_tree(&root2.join("out")) {
             if rel.starts_with("target/") {
                 continue;
@@ -663,7 +704,7 @@ fn isolate_dimension(p: &Program, a: &World, b: &World, scratch: &Path, fakebin:
             }
         }
     }
-    let dims = ["hash", "env", "loc", "clock", "readdir", "previous-build"];
+    let dims = ["hash", "env", "loc", "clock", "readdir", "previous-build", "out-spelling"];
     for d in dims {
         let mut c = a.clone();
         match d {
@@ -672,6 +713,7 @@ fn isolate_dimension(p: &Program, a: &World, b: &World, scratch: &Path, fakebin:
             "loc" => c.loc = format!("{}-alt", b.loc),
             "clock" => c.clock_origin_s = b.clock_origin_s,
             "previous-build" => c.pre_build = b.pre_build,
+            "out-spelling" => c.out_spelling = b.out_spelling.clone(),
             _ => c.order = b.order.clone(),
         }
         // `a` and `c` must not share a directory
